@@ -150,11 +150,16 @@ def write_evidence(prop, tier, seed, meta, records, wall, violations, inconclusi
             "all_obligations": [{"name": r["name"], "verdict": r["status"], "queries": r.get("queries", 0),
                                  "time_s": round(r.get("time", 0), 1)} for r in records],
             "engines": sorted({r.get("engine", "kani") for r in records}),
+            "traces_validated_against_impl": sum(r.get("queries", 0) for r in records if r["name"] in ("translator-validation", "model-validation") and r["ok"]),
+            "replays_of_this_run": [r["replay"] for r in records if r.get("replay")],
         },
         "assumptions": meta.get("assumptions", []),
         "wall_s": round(wall, 1),
         "violations": violations,
     }
+    for k in ("skeletons_enumerated", "decimal_lemmas", "functions_encoded_this_run", "std_models_used"):
+        if k in meta:
+            ev["coverage"][k] = meta[k]
     with open(os.path.join(VERIF, "evidence", prop + ".json"), "w") as f:
         json.dump(ev, f, indent=1)
 
